@@ -2,7 +2,7 @@
    ONLY statements closed by [exact], each followed by Print Assumptions.
    Per-axis statements quantify over every axis lo < hi with k > 0 cells (geometry in Q);
    field statements over every value type V. *)
-From DF Require Import Prelude Constants_gen Region Mesh Select C01_axis C07_axis C07_nd C07_examples.
+From DF Require Import Prelude Constants_gen Region Mesh Select C01_axis C07_axis C07_nd C07_pad C07_accept C07_ops C07_examples.
 Open Scope Q_scope.
 
 (* pointwise: inside the block the source cell of a point is the block cell shifted by the offset (range selection, extraction by region / name) *)
@@ -434,3 +434,313 @@ Example C07_sel_nonvacuous :
   is_ok (sel_convert ex_mesh 0 (SPoint (5 # 2))) = false.
 Proof. exact ex_sel. Qed.
 Print Assumptions C07_sel_nonvacuous.
+
+(* ================= phase 2: n-d acceptance, pad closed forms, result regions ================= *)
+
+(* symmetric mode below the array: the d-th added cell (d = 0 next to the edge) is the mirror image about the edge, edge cell included, period 2k - for every pad width *)
+Theorem C07_pad_symmetric_below :
+  forall k d : Z,
+       (0 < k)%Z -> (0 <= d)%Z -> pad_src PSymmetric k (- d - 1) = Some (mirror_sym k (d mod (2 * k))).
+Proof. exact (@pad_src_symmetric_below). Qed.
+Print Assumptions C07_pad_symmetric_below.
+
+(* symmetric mode above the array *)
+Theorem C07_pad_symmetric_above :
+  forall k d : Z,
+       (0 < k)%Z ->
+       (0 <= d)%Z -> pad_src PSymmetric k (k + d) = Some (k - 1 - mirror_sym k (d mod (2 * k)))%Z.
+Proof. exact (@pad_src_symmetric_above). Qed.
+Print Assumptions C07_pad_symmetric_above.
+
+(* reflect mode below the array: distance d >= 1 from the edge cell, edge cell not repeated, period 2k-2 - for every pad width *)
+Theorem C07_pad_reflect_below :
+  forall k d : Z,
+       (1 < k)%Z -> (1 <= d)%Z -> pad_src PReflect k (- d) = Some (mirror_ref k (d mod (2 * k - 2))).
+Proof. exact (@pad_src_reflect_below). Qed.
+Print Assumptions C07_pad_reflect_below.
+
+(* reflect mode above the array *)
+Theorem C07_pad_reflect_above :
+  forall k d : Z,
+       (1 < k)%Z ->
+       (1 <= d)%Z -> pad_src PReflect k (k - 1 + d) = Some (k - 1 - mirror_ref k (d mod (2 * k - 2)))%Z.
+Proof. exact (@pad_src_reflect_above). Qed.
+Print Assumptions C07_pad_reflect_above.
+
+(* reflect mode on a single cell repeats it (numpy's special case) *)
+Theorem C07_pad_reflect_single :
+  forall j : Z, pad_src PReflect 1 j = Some 0%Z.
+Proof. exact (@pad_src_reflect_single). Qed.
+Print Assumptions C07_pad_reflect_single.
+
+(* wrap mode below / above in the same distance form *)
+Theorem C07_pad_wrap_below :
+  forall k d : Z, (0 < k)%Z -> (0 <= d)%Z -> pad_src PWrap k (- d - 1) = Some (k - 1 - d mod k)%Z.
+Proof. exact (@pad_src_wrap_below). Qed.
+Print Assumptions C07_pad_wrap_below.
+
+(* wrap mode above *)
+Theorem C07_pad_wrap_above :
+  forall k d : Z, (0 < k)%Z -> (0 <= d)%Z -> pad_src PWrap k (k + d) = Some (d mod k)%Z.
+Proof. exact (@pad_src_wrap_above). Qed.
+Print Assumptions C07_pad_wrap_above.
+
+(* within the first k added cells symmetric is the plain mirror image d |-> d *)
+Theorem C07_pad_symmetric_first_period :
+  forall k d : Z, (0 <= d < k)%Z -> mirror_sym k (d mod (2 * k)) = d.
+Proof. exact (@mirror_sym_small). Qed.
+Print Assumptions C07_pad_symmetric_first_period.
+
+(* within the first k-1 added cells reflect is the plain mirror image d |-> d *)
+Theorem C07_pad_reflect_first_period :
+  forall k d : Z,
+       (1 < k)%Z -> (0 <= d < k)%Z -> (d < 2 * k - 2)%Z -> mirror_ref k (d mod (2 * k - 2)) = d.
+Proof. exact (@mirror_ref_small). Qed.
+Print Assumptions C07_pad_reflect_first_period.
+
+(* Region(p1, p2, dims, units) on ordered corners is accepted and keeps them *)
+Theorem C07_accept_region_ctor :
+  forall (p1 p2 : list Q) (ds us : list string) (t : Q),
+       Forall2 Qlt p1 p2 ->
+       (0 < Datatypes.length p1)%nat ->
+       Datatypes.length ds = Datatypes.length p1 ->
+       NoDup ds ->
+       Datatypes.length us = Datatypes.length p1 ->
+       mk_region p1 p2 (Some ds) (Some us) t =
+       OK {| pmin := p1; pmax := p2; dims := ds; units := us; tf := t |}.
+Proof. exact (@mk_region_accepts). Qed.
+Print Assumptions C07_accept_region_ctor.
+
+(* Mesh(region, cell) on a region made of whole cells is accepted with exactly those counts *)
+Theorem C07_accept_mesh_by_cell :
+  forall (r : region) (c : list Q) (ks : list Z),
+       wf_region r ->
+       Datatypes.length c = ndim r ->
+       Datatypes.length ks = ndim r ->
+       (forall a : nat,
+        (a < ndim r)%nat ->
+        0 < nth a c 0 /\
+        (0 < nth a ks 0)%Z /\ nth a (pmax r) 0 - nth a (pmin r) 0 == inject_Z (nth a ks 0%Z) * nth a c 0) ->
+       mesh_by_cell r c = OK {| reg := r; n := ks; bc := ""; subs := [] |}.
+Proof. exact (@mesh_by_cell_accepts). Qed.
+Print Assumptions C07_accept_mesh_by_cell.
+
+(* a point inside the closed region passes the containment test *)
+Theorem C07_accept_contains :
+  forall (r : region) (p : list Q),
+       wf_region r ->
+       Datatypes.length p = ndim r ->
+       (forall a : nat, (a < ndim r)%nat -> nth a (pmin r) 0 <= nth a p 0 <= nth a (pmax r) 0) ->
+       contains_pt r p = true.
+Proof. exact (@contains_pt_intro). Qed.
+Print Assumptions C07_accept_contains.
+
+(* (d) resampling with n > 0 is accepted and keeps corners, dims and units; the resolution is the requested one *)
+Theorem C07_resample_keeps_region :
+  forall (V : Type) (F : field V) (n' : list Z),
+       Datatypes.length n' = ndim (reg (fmesh F)) ->
+       Forall (fun k : Z => (0 < k)%Z) n' ->
+       exists R : field V,
+         field_resample F n' = OK R /\
+         pmin (reg (fmesh R)) = pmin (reg (fmesh F)) /\
+         pmax (reg (fmesh R)) = pmax (reg (fmesh F)) /\
+         dims (reg (fmesh R)) = dims (reg (fmesh F)) /\
+         units (reg (fmesh R)) = units (reg (fmesh F)) /\ n (fmesh R) = n'.
+Proof. exact (@resample_accepts). Qed.
+Print Assumptions C07_resample_keeps_region.
+
+(* (a) padding with widths >= 0 is accepted; corners move by width * cell, counts grow by the widths *)
+Theorem C07_accept_pad_mesh :
+  forall m : mesh,
+       wf_mesh m ->
+       forall pw : list (Z * Z),
+       Datatypes.length pw = Datatypes.length (pmin (reg m)) ->
+       (forall a : nat,
+        (a < Datatypes.length (pmin (reg m)))%nat ->
+        (0 <= fst (nth a pw (0, 0)))%Z /\ (0 <= snd (nth a pw (0, 0)))%Z) ->
+       mesh_pad m pw =
+       OK
+         {|
+           reg :=
+             {|
+               pmin := map3 pad_lo (pmin (reg m)) (cell m) pw;
+               pmax := map3 pad_hi (pmax (reg m)) (cell m) pw;
+               dims := dims (reg m);
+               units := units (reg m);
+               tf := tf (reg m)
+             |};
+           n := map2 (fun (k : Z) (w : Z * Z) => (k + fst w + snd w)%Z) (n m) pw;
+           bc := bc m;
+           subs := []
+         |}.
+Proof. exact (@mesh_pad_accepts). Qed.
+Print Assumptions C07_accept_pad_mesh.
+
+(* (a) Field.pad with widths >= 0 is accepted on that mesh *)
+Theorem C07_accept_pad_field :
+  forall m : mesh,
+       wf_mesh m ->
+       forall (V : Type) (zero : V) (F : field V) (pw : list (Z * Z)) (md : pmode),
+       fmesh F = m ->
+       Datatypes.length pw = Datatypes.length (pmin (reg m)) ->
+       (forall a : nat,
+        (a < Datatypes.length (pmin (reg m)))%nat ->
+        (0 <= fst (nth a pw (0, 0)))%Z /\ (0 <= snd (nth a pw (0, 0)))%Z) ->
+       exists R : field V, field_pad zero F pw md = OK R /\ mesh_pad m pw = OK (fmesh R).
+Proof. exact (@field_pad_accepts). Qed.
+Print Assumptions C07_accept_pad_field.
+
+(* (a) a plane coordinate inside the region is accepted, n-d *)
+Theorem C07_accept_point :
+  forall m : mesh,
+       wf_mesh m ->
+       forall (a : nat) (x : Q),
+       (a < Datatypes.length (pmin (reg m)))%nat ->
+       nth a (pmin (reg m)) 0 <= x ->
+       x <= nth a (pmax (reg m)) 0 -> exists k : Z, sel_convert m a (SPoint x) = OK (IPlane k).
+Proof. exact (@sel_point_accepts). Qed.
+Print Assumptions C07_accept_point.
+
+(* (a) a range inside the region is accepted, n-d *)
+Theorem C07_accept_range :
+  forall m : mesh,
+       wf_mesh m ->
+       forall (a : nat) (x1 x2 : Q),
+       (a < Datatypes.length (pmin (reg m)))%nat ->
+       nth a (pmin (reg m)) 0 <= x1 ->
+       x1 <= nth a (pmax (reg m)) 0 ->
+       nth a (pmin (reg m)) 0 <= x2 ->
+       x2 <= nth a (pmax (reg m)) 0 -> exists i1 i2 : Z, sel_convert m a (SRange x1 x2) = OK (IRange i1 i2).
+Proof. exact (@sel_range_accepts). Qed.
+Print Assumptions C07_accept_range.
+
+(* (a) the default plane (region centre) is accepted *)
+Theorem C07_accept_centre :
+  forall m : mesh,
+       wf_mesh m ->
+       forall a : nat,
+       (a < Datatypes.length (pmin (reg m)))%nat -> exists k : Z, sel_convert m a SCentre = OK (IPlane k).
+Proof. exact (@sel_centre_accepts). Qed.
+Print Assumptions C07_accept_centre.
+
+(* (c) range selection: accepted; the result region is exactly the union of the kept cells [lo+i1 c, lo+(i2+1) c] on the chosen axis, all other corners, dims, units untouched, counts and cell size follow *)
+Theorem C07_range_region :
+  forall m : mesh,
+       wf_mesh m ->
+       forall (a : nat) (i1 i2 : Z),
+       subs_wf m ->
+       (a < Datatypes.length (pmin (reg m)))%nat ->
+       (0 <= i1)%Z ->
+       (i1 <= i2)%Z ->
+       (i2 < nth a (n m) 1)%Z ->
+       let lo := nth a (pmin (reg m)) 0 in
+       let c := nth a (cell m) 0 in
+       exists (m' : mesh) (lo' hi' : Q),
+         mesh_sel_range m a i1 i2 = OK m' /\
+         reg m' =
+         {|
+           pmin := set_nth a lo' (pmin (reg m));
+           pmax := set_nth a hi' (pmax (reg m));
+           dims := dims (reg m);
+           units := units (reg m);
+           tf := tf (reg m)
+         |} /\
+         lo' == lo + inject_Z i1 * c /\
+         hi' == lo + (inject_Z i2 + 1) * c /\
+         n m' = set_nth a (i2 - i1 + 1)%Z (n m) /\
+         (forall b : nat, (b < Datatypes.length (pmin (reg m)))%nat -> nth b (cell m') 0 == nth b (cell m) 0).
+Proof. exact (@mesh_sel_range_region). Qed.
+Print Assumptions C07_range_region.
+
+(* (c) plane selection (nd >= 2): accepted; the mesh is the source mesh with that axis removed (corners, dims, units, n, cell of the other axes untouched) *)
+Theorem C07_plane_mesh :
+  forall m : mesh,
+       wf_mesh m ->
+       forall (a : nat) (k : Z),
+       subs_wf m ->
+       (a < Datatypes.length (pmin (reg m)))%nat ->
+       (2 <= Datatypes.length (pmin (reg m)))%nat ->
+       exists m' : mesh,
+         mesh_sel_plane m a k = OK m' /\
+         reg m' =
+         {|
+           pmin := remove_nth a (pmin (reg m));
+           pmax := remove_nth a (pmax (reg m));
+           dims := remove_nth a (dims (reg m));
+           units := remove_nth a (units (reg m));
+           tf := tf (reg m)
+         |} /\
+         n m' = remove_nth a (n m) /\
+         (forall b : nat,
+          (b < Datatypes.length (pmin (reg m)) - 1)%nat -> nth b (cell m') 0 == nth (skip a b) (cell m) 0).
+Proof. exact (@mesh_sel_plane_mesh). Qed.
+Print Assumptions C07_plane_mesh.
+
+(* (a) Field.sel with a range inside the region is accepted, on the mesh Mesh.sel returns *)
+Theorem C07_accept_field_range :
+  forall m : mesh,
+       wf_mesh m ->
+       forall (V : Type) (F : field V) (a : nat) (x1 x2 : Q),
+       fmesh F = m ->
+       subs_wf m ->
+       (a < Datatypes.length (pmin (reg m)))%nat ->
+       nth a (pmin (reg m)) 0 <= x1 ->
+       x1 <= nth a (pmax (reg m)) 0 ->
+       nth a (pmin (reg m)) 0 <= x2 ->
+       x2 <= nth a (pmax (reg m)) 0 ->
+       exists R : field V,
+         field_sel F a (SRange x1 x2) = OK (FField R) /\ mesh_sel m a (SRange x1 x2) = OK (fmesh R).
+Proof. exact (@field_sel_range_accepts). Qed.
+Print Assumptions C07_accept_field_range.
+
+(* (a) Field.sel with a plane coordinate inside the region is accepted (nd >= 2), on the mesh Mesh.sel returns *)
+Theorem C07_accept_field_plane :
+  forall m : mesh,
+       wf_mesh m ->
+       forall (V : Type) (F : field V) (a : nat) (x : Q),
+       fmesh F = m ->
+       subs_wf m ->
+       (a < Datatypes.length (pmin (reg m)))%nat ->
+       (2 <= Datatypes.length (pmin (reg m)))%nat ->
+       nth a (pmin (reg m)) 0 <= x ->
+       x <= nth a (pmax (reg m)) 0 ->
+       exists R : field V, field_sel F a (SPoint x) = OK (FField R) /\ mesh_sel m a (SPoint x) = OK (fmesh R).
+Proof. exact (@field_sel_plane_accepts). Qed.
+Print Assumptions C07_accept_field_plane.
+
+Example C07_wf_nonvacuous :
+  wf_mesh ex_mesh /\ subs_wf ex_mesh.
+Proof. exact ex_wf. Qed.
+Print Assumptions C07_wf_nonvacuous.
+
+Example C07_range_region_nonvacuous :
+  exists m' : mesh,
+         mesh_sel_range ex_mesh 1 0 1 = OK m' /\
+         qlist_eqb (pmin (reg m')) [0; 0] = true /\
+         qlist_eqb (pmax (reg m')) [2; 2] = true /\ n m' = [2%Z; 2%Z].
+Proof. exact ex_range_region. Qed.
+Print Assumptions C07_range_region_nonvacuous.
+
+Example C07_plane_mesh_nonvacuous :
+  exists m' : mesh,
+         mesh_sel_plane ex_mesh 0 1 = OK m' /\
+         pmin (reg m') = [0] /\ pmax (reg m') = [3] /\ dims (reg m') = ["y"%string] /\ n m' = [3%Z].
+Proof. exact ex_plane_mesh. Qed.
+Print Assumptions C07_plane_mesh_nonvacuous.
+
+Example C07_pad_modes_nonvacuous :
+  pad_src PSymmetric 3 (-5) = Some 1%Z /\
+       pad_src PSymmetric 3 10 = Some 1%Z /\
+       pad_src PReflect 3 (-7) = Some 1%Z /\
+       pad_src PReflect 3 10 = Some 2%Z /\
+       mirror_sym 3 (4 mod (2 * 3)) = 1%Z /\ mirror_ref 3 (7 mod (2 * 3 - 2)) = 1%Z.
+Proof. exact ex_pad_modes. Qed.
+Print Assumptions C07_pad_modes_nonvacuous.
+
+Example C07_accept_pad_nonvacuous :
+  exists m' : mesh,
+         mesh_pad ex_mesh [(1%Z, 0%Z); (0%Z, 2%Z)] = OK m' /\
+         n m' = [3%Z; 5%Z] /\
+         qlist_eqb (pmin (reg m')) [- (1); 0] = true /\ qlist_eqb (pmax (reg m')) [2; 5] = true.
+Proof. exact ex_pad_accept. Qed.
+Print Assumptions C07_accept_pad_nonvacuous.
